@@ -823,6 +823,19 @@ FIXED_TRIGGERS = {
     # a0e6d48 "fix: vecdot conjugates its first argument for complex inputs"
     "vecdot-complex": (_prog([_inp([2], [1], "complex128")],
                              [{"op": "vecdot", "family": "vecdot", "in": [0, 0], "params": {"axis": -1}}], [1]), "ok"),
+    # seeded/C01-1: vecdot's axis counts from the END of each operand; operands of different rank broadcast
+    "vecdot-v-m": (_prog([_inp([3], [2], "float64", "perm:1"), _inp([3, 3], [2, 2], "float64", "perm:2", 1)],
+                         [{"op": "vecdot", "family": "vecdot", "in": [0, 1], "params": {"axis": -1}}], [2]), "ok"),
+    "vecdot-v-t-default-axis": (_prog([_inp([3], [1], "float64", "perm:1"), _inp([2, 3, 3], [1, 2, 3], "float64", "perm:3", 1)],
+                                      [{"op": "vecdot", "family": "vecdot", "in": [0, 1], "params": {"axis": None}}], [2]), "ok"),
+    "vecdot-m-t": (_prog([_inp([3, 3], [2, 2], "int64", "perm:4"), _inp([2, 3, 3], [1, 2, 2], "int64", "perm:5", 1)],
+                         [{"op": "vecdot", "family": "vecdot", "in": [0, 1], "params": {"axis": -1}}], [2]), "ok"),
+    "vecdot-m-t-axis-2": (_prog([_inp([3, 3], [2, 2], "int64", "perm:4"), _inp([2, 3, 3], [1, 2, 2], "int64", "perm:5", 1)],
+                                [{"op": "vecdot", "family": "vecdot", "in": [0, 1], "params": {"axis": -2}}], [2]), "ok"),
+    "vecdot-t-m (x2 lower)": (_prog([_inp([2, 3, 3], [2, 1, 3], "int64", "perm:6"), _inp([3, 3], [3, 1], "int64", "perm:7", 1)],
+                                    [{"op": "vecdot", "family": "vecdot", "in": [0, 1], "params": {"axis": -1}}], [2]), "ok"),
+    "vecdot-v-w": (_prog([_inp([3], [2], "float64", "perm:1"), _inp([4, 3], [3, 2], "float64", "perm:8", 1)],
+                         [{"op": "vecdot", "family": "vecdot", "in": [0, 1], "params": {"axis": -1}}], [2]), "ok"),
     # d99e354 "fix: hypot only accepts real floating-point dtypes"
     "hypot-int": (_prog([_inp([2], [1], salt=3)],
                         [{"op": "hypot", "family": "binary", "in": [0, 0], "params": {"_k": "binary"}}], [1]), "decline"),
